@@ -182,9 +182,16 @@ func genName(r *rand.Rand, w *world, own string) nameDraw {
 		return nameDraw{"kubernetes://" + own + "/" + sec, "k8s-own-ns"}
 	case x < 40:
 		return nameDraw{"kubernetes://" + ns + "/" + sec, "k8s-explicit-ns"}
-	case x < 44:
-		return nameDraw{"kubernetes://" + ns + "/" + sec + "/" + pick(r, []string{"x", own, sec}), "k8s-three-segments"}
-	case x < 50:
+	case x < 46:
+		// more segments than the format has, incl. a trailing segment that LOOKS like a CA-only reference
+		// ("-cacert" names are exempt from the authorisation check because they carry no key material)
+		third := pick(r, []string{"x", own, sec, "x-cacert", sec + "-cacert", "-cacert", "x/y-cacert"})
+		form := "k8s-three-segments"
+		if strings.HasSuffix(third, "-cacert") {
+			form = "k8s-three-segments-cacert-tail"
+		}
+		return nameDraw{"kubernetes://" + ns + "/" + sec + "/" + third, form}
+	case x < 51:
 		return nameDraw{"kubernetes://" + sec + "-cacert", "k8s-cacert"}
 	case x < 54:
 		return nameDraw{"kubernetes://" + ns + "/" + sec + "-cacert", "k8s-ns-cacert"}
@@ -195,7 +202,7 @@ func genName(r *rand.Rand, w *world, own string) nameDraw {
 	case x < 77:
 		return nameDraw{"kubernetes-gateway://" + ns + "/" + sec + "-cacert", "gw-cacert"}
 	case x < 79:
-		return nameDraw{"kubernetes-gateway://" + ns + "/" + sec + "/extra", "gw-three-segments"}
+		return nameDraw{"kubernetes-gateway://" + ns + "/" + sec + "/" + pick(r, []string{"extra", "extra-cacert", sec + "-cacert"}), "gw-three-segments"}
 	case x < 81:
 		return nameDraw{pick(r, []string{"kubernetes-gateway://" + sec, "kubernetes-gateway:///" + sec, "kubernetes-gateway://" + ns + "/", "kubernetes-gateway://"}), "gw-malformed"}
 	case x < 85:
